@@ -145,6 +145,18 @@ func RunWorker(p *Property, tier string, shard, nshards int, deadline time.Time,
 	cur := out + ".cur"
 	spaces := p.Spaces(tier)
 	w.Exhausted = true
+	if f := os.Getenv("VERIF_SPACES"); f != "" { // debugging aid: restrict to spaces with these name prefixes
+		var keep []*Space
+		for _, sp := range spaces {
+			for _, pre := range strings.Split(f, ",") {
+				if strings.HasPrefix(sp.Name, pre) {
+					keep = append(keep, sp)
+					break
+				}
+			}
+		}
+		spaces = keep
+	}
 	for _, sp := range spaces {
 		w.curSpace = sp.Name
 		for i := shard; i < sp.Size; i += nshards {
